@@ -1,7 +1,7 @@
 """Driver-side harness: Socket-level fake (SimSocket), raw-socket shim, driver factories."""
 import sys
 
-CURRENT = {"target": None, "sockets": [], "budget": 200_000}
+CURRENT = {"target": None, "sockets": [], "budget": 200_000, "drop": set(), "unit_sends": 0}
 
 
 class StepBudgetExceeded(BaseException):
@@ -30,6 +30,13 @@ class SimSocket:
             raise StepBudgetExceeded()
         self.sent.append(bytes(msg))
         reply = CURRENT["target"].handle(bytes(msg))
+        if len(msg) >= 2 and msg[0] == 0x70 and msg[1] == 0:
+            # the reply to the k-th connected message may get lost on the way: the target has executed the request, the caller
+            # sees a time-out, and the connection stays usable
+            k = CURRENT["unit_sends"]
+            CURRENT["unit_sends"] = k + 1
+            if k in CURRENT["drop"]:
+                reply = None
         if reply is not None:
             self.queue.append(reply)
         return len(msg)
@@ -38,7 +45,9 @@ class SimSocket:
         if self.closed:
             raise OSError("receive on closed socket")
         if not self.queue:
-            raise OSError("timed out")
+            import socket
+            from pycomm3.exceptions import CommError
+            raise CommError("socket connection broken") from socket.timeout("timed out")   # what the real Socket.receive raises
         return self.queue.pop(0)
 
     def close(self):
@@ -54,6 +63,8 @@ def install(target, budget=20_000):
     CURRENT["target"] = target
     CURRENT["sockets"] = []
     CURRENT["budget"] = budget
+    CURRENT["drop"] = set()
+    CURRENT["unit_sends"] = 0
     cd.Socket = SimSocket
 
 
